@@ -669,6 +669,100 @@ theorem null_only_where_nullable (env : Env) :
 theorem accepted_null_is_nullable (env : Env) (s : S) (h : visit env s .null = true) : NullableIn s :=
   (null_only_where_nullable env).1 s .null rfl ((visit_iff_sat env s .null).mp h)
 
+/-! ### `jeq` (enum membership, uniqueItems) is equality of JSON values -/
+
+theorem jeq_iff_eq_all :
+    (∀ a b : J, jeq a b = true ↔ a = b) ∧
+    (∀ a b : List (String × J), jeqO a b = true ↔ a = b) ∧
+    (∀ a b : List J, jeqL a b = true ↔ a = b) := by
+  refine jeq.mutual_induct
+    (motive_1 := fun a b => jeq a b = true ↔ a = b)
+    (motive_2 := fun a b => jeqO a b = true ↔ a = b)
+    (motive_3 := fun a b => jeqL a b = true ↔ a = b)
+    ?_ ?_ ?_ ?_ ?_ ?_ ?_ ?_ ?_ ?_ ?_ ?_ ?_
+  · simp [jeq]
+  · intro a b; simp [jeq]
+  · intro a b; simp [jeq]
+  · intro a b; simp [jeq]
+  · intro a b ih; simp [jeq, ih]
+  · intro a b ih; simp [jeq, ih]
+  · intro t x h1 h2 h3 h4 h5 h6
+    cases t <;> cases x <;> simp [jeq] <;> first | (exact (h1 rfl rfl).elim) | (exact (h2 _ _ rfl rfl).elim) | (exact (h3 _ _ rfl rfl).elim) | (exact (h4 _ _ rfl rfl).elim) | (exact (h5 _ _ rfl rfl).elim) | (exact (h6 _ _ rfl rfl).elim)
+  · simp [jeqL]
+  · intro x xs y ys ih1 ih2; simp [jeqL, ih1, ih2]
+  · intro t x h1 h2
+    cases t <;> cases x <;> simp [jeqL] <;> first | (exact (h1 rfl rfl).elim) | (exact (h2 _ _ _ _ rfl rfl).elim)
+  · simp [jeqO]
+  · intro k x xs l y ys ih1 ih2; simp [jeqO, ih1, ih2, and_assoc]
+  · intro t x h1 h2
+    cases t with
+    | nil => cases x with
+      | nil => exact (h1 rfl rfl).elim
+      | cons b bs => obtain ⟨l, y⟩ := b; simp [jeqO]
+    | cons a as =>
+      obtain ⟨k, z⟩ := a
+      cases x with
+      | nil => simp [jeqO]
+      | cons b bs => obtain ⟨l, y⟩ := b; exact (h2 _ _ _ _ _ _ rfl rfl).elim
+
+/-- enum membership and uniqueness are decided by equality of (canonical) JSON values -/
+theorem jeq_iff_eq (a b : J) : jeq a b = true ↔ a = b := jeq_iff_eq_all.1 a b
+
+theorem enumSpec_iff_mem (kw : Kw) (v : J) : enumSpec kw v ↔ (kw.enum = [] ∨ v ∈ kw.enum) := by
+  unfold enumSpec
+  constructor
+  · rintro (h | ⟨e, he, hj⟩)
+    · exact Or.inl h
+    · exact Or.inr ((jeq_iff_eq e v).mp hj ▸ he)
+  · rintro (h | h)
+    · exact Or.inl h
+    · exact Or.inr ⟨v, h, (jeq_iff_eq v v).mpr rfl⟩
+
+theorem uniqueB_iff_nodup (xs : List J) : uniqueB xs = true ↔ xs.Nodup := by
+  induction xs with
+  | nil => simp [uniqueB]
+  | cons x xs ih =>
+    simp only [uniqueB, Bool.and_eq_true, Bool.not_eq_true', List.nodup_cons, ih]
+    constructor
+    · rintro ⟨h1, h2⟩
+      refine ⟨fun hm => ?_, h2⟩
+      have : xs.any (jeq x) = true := List.any_eq_true.mpr ⟨x, hm, (jeq_iff_eq x x).mpr rfl⟩
+      simp [this] at h1
+    · rintro ⟨h1, h2⟩
+      refine ⟨?_, h2⟩
+      cases ha : xs.any (jeq x) with
+      | false => rfl
+      | true =>
+        obtain ⟨y, hy, hj⟩ := List.any_eq_true.mp ha
+        exact absurd ((jeq_iff_eq x y).mp hj ▸ hy) h1
+
+/-! ### `multipleOf` and `integer` mean what draft-4 says -/
+
+theorem isInt_iff_int (r : Rat) : r.isInt = true ↔ ∃ k : Int, r = (k : Rat) := by
+  constructor
+  · intro h
+    refine ⟨r.num, ?_⟩
+    have hd : r.den = 1 := by simpa [Rat.isInt] using h
+    apply Rat.ext
+    · simp
+    · simp [hd]
+  · rintro ⟨k, rfl⟩; simp [Rat.isInt]
+
+/-- "A numeric instance is valid only if division by this keyword's value results in an integer": the
+check `(q / m).isInt` holds exactly when `q` is an integral multiple of `m` (and a zero `multipleOf` admits nothing) -/
+theorem multipleOf_meaning (kw : Kw) (q m : Rat) (h : kw.multipleOf = some m) :
+    multipleOK kw q = true ↔ (m ≠ 0 ∧ ∃ k : Int, q = (k : Rat) * m) := by
+  rw [multipleOK_iff]
+  constructor
+  · intro hm
+    obtain ⟨h0, hi⟩ := hm m h
+    refine ⟨h0, ?_⟩
+    obtain ⟨k, hk⟩ := (isInt_iff_int _).mp hi
+    exact ⟨k, by rw [← hk, Rat.div_mul_cancel h0]⟩
+  · rintro ⟨h0, k, rfl⟩ m' hm'
+    rw [h] at hm'; cases hm'
+    exact ⟨h0, (isInt_iff_int _).mpr ⟨k, Rat.mul_div_cancel h0⟩⟩
+
 /-! ### non-vacuity: concrete schemas and values on both sides of the equivalence -/
 
 def exEnv : Env := { regex := fun _ _ => some true, strFormat := fun _ _ => none }
